@@ -6,6 +6,7 @@ import (
 	"go/constant"
 	"go/token"
 	"go/types"
+	"sort"
 
 	"golang.org/x/tools/go/ast/astutil"
 	"golang.org/x/tools/go/ssa"
@@ -404,4 +405,167 @@ func (p *Program) returnExprText(pos token.Pos) string {
 		}
 	}
 	return ""
+}
+
+// R-RUNE-WHOLE (C12): the scanner classifies characters by their whole code point.
+func init() {
+	register(&Rule{Name: "R-RUNE-WHOLE", Min: 10,
+		Doc: "in the scan functions (those that call the rune reader) and the character-class predicates they call, a rune is never narrowed before it is compared or used as an index: no conversion of a rune to an integer type of fewer than 32 bits and no mask, remainder or shift of a rune, unless an upper bound that fits the narrower type holds on every path to it; a narrowed rune makes a character outside the alphabet indistinguishable from one inside it (U+0141 has the low byte of 'A')",
+		Run: runRuneWhole})
+}
+
+func isRuneKind(t types.Type) bool {
+	b, ok := t.Underlying().(*types.Basic)
+	return ok && b.Kind() == types.Int32
+}
+
+func narrowIntBits(t types.Type) int {
+	b, ok := t.Underlying().(*types.Basic)
+	if !ok {
+		return 0
+	}
+	switch b.Kind() {
+	case types.Uint8, types.Int8:
+		return 8
+	case types.Uint16, types.Int16:
+		return 16
+	}
+	return 0
+}
+
+// boundedBelow: on every path to b, x < limit is known (x < C or x <= C true, x >= C or x > C false).
+func (v *View) boundedBelow(b *ssa.BasicBlock, x ssa.Value, limit int64) bool {
+	for f := range v.FactsAt(b) {
+		bo, ok := f.v.(*ssa.BinOp)
+		if !ok || (f.k != factTrue && f.k != factFalse) {
+			continue
+		}
+		op, l, rr := bo.Op, bo.X, bo.Y
+		if _, isC := l.(*ssa.Const); isC { // C op x  ==  x op' C
+			l, rr = rr, l
+			switch op {
+			case token.LSS:
+				op = token.GTR
+			case token.LEQ:
+				op = token.GEQ
+			case token.GTR:
+				op = token.LSS
+			case token.GEQ:
+				op = token.LEQ
+			}
+		}
+		c, isC := rr.(*ssa.Const)
+		if !isC || c.Value == nil || c.Value.Kind() != constant.Int || origin(l) != origin(x) {
+			continue
+		}
+		cv, exact := constant.Int64Val(c.Value)
+		if !exact {
+			continue
+		}
+		if f.k == factFalse {
+			switch op {
+			case token.GEQ:
+				op = token.LSS
+			case token.GTR:
+				op = token.LEQ
+			default:
+				continue
+			}
+		}
+		if op == token.LSS && cv <= limit || op == token.LEQ && cv < limit {
+			return true
+		}
+	}
+	return false
+}
+
+func runRuneWhole(p *Program, r *RuleResult) {
+	ri := findScannerReader(p)
+	if ri == nil || ri.Read == nil {
+		r.add(parserPkg, "rune-reader", Undecided, "", "the wrapper of bufio.Reader.ReadRune was not found")
+		return
+	}
+	// domain: callers of the reader and everything of the parser package they call
+	dom := map[*ssa.Function]bool{}
+	var work []*ssa.Function
+	for _, fn := range p.SrcFuncs {
+		if fn.Pkg != nil && fn.Pkg.Pkg.Path() == parserPkg && len(p.callsTo(fn, ri.Read)) > 0 {
+			dom[fn] = true
+			work = append(work, fn)
+		}
+	}
+	for len(work) > 0 {
+		fn := work[0]
+		work = work[1:]
+		for _, c := range p.callsIn(fn) {
+			sc := c.Common().StaticCallee()
+			if sc != nil && sc.Pkg != nil && sc.Pkg.Pkg.Path() == parserPkg && len(sc.Blocks) > 0 && !dom[sc] {
+				dom[sc] = true
+				work = append(work, sc)
+			}
+		}
+		for _, an := range fn.AnonFuncs {
+			if !dom[an] {
+				dom[an] = true
+				work = append(work, an)
+			}
+		}
+	}
+	judged := 0
+	var fns []*ssa.Function
+	for fn := range dom {
+		fns = append(fns, fn)
+	}
+	sort.Slice(fns, func(i, j int) bool { return fnName(fns[i]) < fnName(fns[j]) })
+	for _, fn := range fns {
+		view := p.View(fn)
+		handles := false
+		for _, pa := range fn.Params {
+			if isRuneKind(pa.Type()) {
+				handles = true
+			}
+		}
+		bad, pos := "", ""
+		for _, b := range view.Blocks() {
+			for _, in := range view.Instrs(b) {
+				if v, ok := in.(ssa.Value); ok && isRuneKind(v.Type()) {
+					handles = true
+				}
+				switch x := in.(type) {
+				case *ssa.Convert:
+					if bits := narrowIntBits(x.Type()); bits > 0 && isRuneKind(x.X.Type()) {
+						if _, isC := x.X.(*ssa.Const); isC {
+							continue
+						}
+						if view.boundedBelow(b, x.X, int64(1)<<uint(bits)) {
+							continue
+						}
+						bad = fmt.Sprintf("the rune %s is converted to %s (%d bits) with no upper bound established: code points that differ only above bit %d become indistinguishable", displayKey(x.X), x.Type(), bits, bits)
+						pos = p.instrPos(x)
+					}
+				case *ssa.BinOp:
+					switch x.Op {
+					case token.AND, token.REM, token.SHR, token.AND_NOT:
+						if isRuneKind(x.X.Type()) {
+							if _, isC := x.X.(*ssa.Const); isC {
+								continue
+							}
+							bad = fmt.Sprintf("the rune %s is reduced with %s before it is classified: distinct code points collapse", displayKey(x.X), x.Op)
+							pos = p.instrPos(x)
+						}
+					}
+				}
+			}
+		}
+		if !handles {
+			continue
+		}
+		judged++
+		if bad != "" {
+			r.add(fnName(fn), "whole-rune", Violated, pos, bad)
+		} else {
+			r.add(fnName(fn), "whole-rune", Holds, "", "every comparison and index sees the full code point")
+		}
+	}
+	r.count("scanner functions handling runes", judged)
 }
